@@ -65,25 +65,20 @@ pub struct ObservableStreamObserver<T, E> {
 }
 
 impl<T, E> Observer<T, E> for ObservableStreamObserver<T, E> {
+  // The consumer may have dropped the stream - the only way to cancel this
+  // conversion. A send then fails; that is no reason to panic in the middle of
+  // the source's emission (where it would also cut off every subscriber of a
+  // subject that comes after this one): `is_finished` tells the source.
   fn next(&mut self, value: T) {
-    self
-      .sender
-      .unbounded_send(Message::Item(Ok(value)))
-      .expect("failed to send value to stream");
+    let _ = self.sender.unbounded_send(Message::Item(Ok(value)));
   }
 
   fn error(self, err: E) {
-    self
-      .sender
-      .unbounded_send(Message::Item(Err(err)))
-      .expect("failed to send error to stream");
+    let _ = self.sender.unbounded_send(Message::Item(Err(err)));
   }
 
   fn complete(self) {
-    self
-      .sender
-      .unbounded_send(Message::Complete)
-      .expect("failed to send a complete message");
+    let _ = self.sender.unbounded_send(Message::Complete);
   }
 
   fn is_finished(&self) -> bool {
